@@ -120,6 +120,7 @@ def run_one(job):
                 mm.check_domain(I, inst, vname, r['results'])
                 mm.check_spec_post(I, inst, r['results'], r.get('args', []))
                 mm.check_iter_post(I, inst, r['results'], r.get('args', []))
+                mm.check_period_test(I, inst, r['results'], r.get('args', []))
                 if not vname.endswith('|out-of-domain'):
                     mm.check_verified(I, inst, r['results'], r.get('args', []))
                 eqspec.check(I, inst, r['results'], r.get('args', []))
@@ -152,7 +153,7 @@ def merge_recs(recs):
     return out
 
 
-def run_config(cfg, budget=180, jobs=None, only=None, use_cache=True):
+def run_config(cfg, budget=600, jobs=None, only=None, use_cache=True):
     P = _prog(cfg)
     cache = os.path.join(configs.cache_dir(), f"e2-{cfg}-{src_hash()}.json")
     if use_cache and only is None and os.path.exists(cache):
